@@ -258,10 +258,16 @@ def check_hash(E, exp_dims, label, is2d=False, model=None):
     """C20 oracle: the concatenation of the arrays passed to update() is the source samples in trace order."""
     hs = shenv.ctx().hash_objects
     E.reached(label + ':hash')
-    if len(hs) != 1:
-        E.check(False, label + ': exactly one hash object is used (%d)' % len(hs))
+    st = shenv.ctx().last_store
+    leaf = st.content.resolve(960, 20)
+    obj = None
+    if isinstance(leaf[0], tuple) and leaf[0][0] == 'digest' and (leaf[1] == 0):
+        obj = [h for h in hs if id(h) == leaf[0][1]]
+    if not obj:
+        E.check(False, label + ': bytes 960-979 of the file hold a SHA-1 digest (%s)' % (leaf[0],))
         return
-    ups = hs[0].updates
+    E.check(True, label + ': bytes 960-979 hold the digest of a hash object')
+    ups = obj[0].updates
     total = 0
     k = E.fresh('phash', 0)
     n_tr = exp_dims[0] * exp_dims[1] if not is2d else exp_dims[0]
@@ -341,6 +347,8 @@ def numpy_item(bs, rate, nb, props, opts=None):
             kw['samples'] = LazyArr((dims[2],), lambda idx: z0 + idx[0] * dz, 'num', 'i8')
         with Quiet():
             conv = C.NumpyConverter(cube, **kw)
+            if opts.get('runs') == 2:      # the same converter object used for an earlier output (another bit rate)
+                conv.run('first.sgz', bits_per_voxel=4, blockshape=(4, 4, -1))
             conv.run('out.sgz', bits_per_voxel=opts.get('bpv_in', rate), blockshape=opts.get('bs_in', bs))
         E.reached('numpy:converted')
         st = fs.stores['out.sgz']
@@ -366,11 +374,8 @@ def numpy_item(bs, rate, nb, props, opts=None):
             if part == 'footer':
                 check_footer(E, st, exp, geo, hdrs, 'numpy')
         if 'C20' in props:
+            shenv.ctx().last_store = st
             check_hash(E, dims, 'numpy')
-            # the digest is what lands in bytes 960..979
-            leaf = st.content.resolve(960, 20)
-            E.check(isinstance(leaf[0], tuple) and leaf[0][0] == 'digest' and leaf[0][1] == id(shenv.ctx().hash_objects[0]) and leaf[1] == 0,
-                    'numpy: bytes 960-979 hold the digest of that hash object')
         if 'C01' in props or 'C04' in props or 'C05' in props:
             R = mm['read']
             with Quiet():
@@ -545,6 +550,8 @@ def segy_item(kind, bs, rate, nb, props, opts=None):
             kw = dict(min_il=w[0], max_il=w[1], min_xl=w[2], max_xl=w[3])
         with Quiet():
             conv = C.SegyConverter(model.name, **kw)
+            if opts.get('runs') == 2:
+                conv.run('first.sgz', bits_per_voxel=4, blockshape=(1, 16, -1) if kind == '2d' else (4, 4, -1))
             conv.run('out.sgz', bits_per_voxel=opts.get('bpv_in', rate), blockshape=opts.get('bs_in', bs),
                      reduce_iops=bool(opts.get('reduce_iops')), header_detection=detection)
         E.reached('segy:converted')
@@ -604,6 +611,7 @@ def finish_segy(E, mm, fs, st, model, dims, bs, rate, props, opts, window, H):
             E.reached(label + ':probe')
             expect_source_voxel(E, st, vox.get((0, 0, 0)), v, dims, label + ': read-back voxel', model=model)
     if 'C20' in props:
+        shenv.ctx().last_store = st
         check_hash(E, dims, label, is2d=is2d, model=model)
     win = None
     if window:
@@ -827,6 +835,16 @@ def items_for(prop, tier):
                         solver_ms=10000 if quick else 60000)
                 it.meta = dict(kind='numpy', bs=[4, 4, 256], rate=8, nb=[2, 2, 1], opts=dict(o), prop=prop)
                 items.append(it)
+    if prop == 'C20':
+        from .runner import Item as _I
+        it = _I('numpy|C20|runs=2|bs=4x4x256|rate=8|nb=2x1x1', (lambda: numpy_item((4, 4, 256), 8, (2, 1, 1), {'C20'}, dict(runs=2))), timeout_s=200)
+        it.meta = dict(kind='numpy', bs=[4, 4, 256], rate=8, nb=[2, 1, 1], opts=dict(runs=2), prop='C20')
+        items.append(it)
+        for kind, bs, nb in (('regular', (4, 4, 256), (2, 1, 1)), ('2d', (1, 16, 256), (2, 1))):
+            it = _I('segy-%s|C20|runs=2|bs=%s|rate=8|nb=%s' % (kind, 'x'.join(map(str, bs)), 'x'.join(map(str, nb))),
+                    (lambda kind=kind, bs=bs, nb=nb: segy_item(kind, bs, 8, nb, {'C20'}, dict(runs=2, fmt=1))), timeout_s=200)
+            it.meta = dict(kind='segy-' + kind, bs=list(bs), rate=8, nb=list(nb), opts=dict(runs=2, fmt=1), prop='C20')
+            items.append(it)
     if prop == 'C03':
         # the distribution version strings setuptools_scm can emit for this project (incl. the one installed here)
         for ver, tup in (('0.1.dev1+g45bcf9689', None), ('0.2.8', (0, 2, 8, True)), ('0.2.9.dev3+gabcdef0', (0, 2, 9, False)),
